@@ -198,6 +198,8 @@ type Fabric struct {
 	Delivered map[[2]int][]string
 	seq       atomic.Int64
 	start     time.Time
+	// node index -> map[int]string: SKIs the application registers before the next Start of that node
+	pendingPaired sync.Map
 }
 
 func NewFabric() *Fabric {
@@ -379,6 +381,11 @@ func (f *Fabric) StartNode(n *Node) error {
 		local.SetShipID("shipid-" + n.Name)
 		mw := &mdnsWrap{MdnsManager: n.Mdns, prov: n.Prov}
 		n.Hub = hub.NewHub(n.App, mw, port, n.Cert, local)
+		if v, ok := f.pendingPaired.Load(n.Idx); ok {
+			for _, ski := range v.(map[int]string) {
+				n.Hub.RegisterRemoteSKI(ski) // before Start: restores a persisted pairing
+			}
+		}
 		n.Hub.Start()
 		n.down.Store(false)
 		// Hub.Start swallows listen errors: make sure it is our hub that answers
@@ -388,6 +395,39 @@ func (f *Fabric) StartNode(n *Node) error {
 		n.Hub.Shutdown()
 	}
 	return fmt.Errorf("could not start hub %s on a free port", n.Name)
+}
+
+// RestartNode starts a fresh hub (new port, same certificate) for a node whose hub was shut down.
+// paired: the nodes whose SKIs the application registers again before Start.
+func (f *Fabric) RestartNode(n *Node, paired []int) error {
+	f.mu.Lock()
+	skis := map[int]string{}
+	for _, y := range paired {
+		skis[y] = f.Nodes[y].SKI
+	}
+	f.mu.Unlock()
+	f.pendingPaired.Store(n.Idx, skis)
+	if err := f.StartNode(n); err != nil {
+		return err
+	}
+	// what the restarted node's mDNS provider finds on the network
+	f.mu.Lock()
+	var ys []int
+	for y := range f.Nodes {
+		if y != n.Idx && f.sees[[2]int{n.Idx, y}] {
+			ys = append(ys, y)
+		}
+	}
+	f.mu.Unlock()
+	for _, y := range ys {
+		f.Nodes[y].Prov.mu.Lock()
+		ann := f.Nodes[y].Prov.ann
+		f.Nodes[y].Prov.mu.Unlock()
+		if ann != nil {
+			f.deliver(n.Idx, y, ann, false)
+		}
+	}
+	return nil
 }
 
 // mdnsWrap makes Hub.Start use the fabric provider instead of avahi/zeroconf.
